@@ -42,7 +42,12 @@ def new_result(**kw):
 _WORKER = {}
 
 
-def _init_worker(check_module, symbolic):
+_REPLAYS = {"budget": None}
+REPLAY_CAP = int(os.environ.get("VERIF_REPLAY_CAP", "24"))
+
+
+def _init_worker(check_module, symbolic, budget=None):
+    _REPLAYS["budget"] = budget
     sys.path.insert(0, VERIF)
     os.environ.setdefault("OMP_NUM_THREADS", "1")
     os.environ.setdefault("OPENBLAS_NUM_THREADS", "1")
@@ -84,6 +89,12 @@ def _run_one(args):
 # ------------------------------------------------------------------ replay gate
 def run_replay(script_path, timeout=300):
     """run a stand-alone replay against the untouched library; returns (reproduced, output)"""
+    b = _REPLAYS.get("budget")
+    if b is not None:
+        with b.get_lock():
+            if b.value <= 0:
+                return None, "replay budget of this run exhausted (%d replays): further counterexamples are not replayed" % REPLAY_CAP
+            b.value -= 1
     env = dict(os.environ)
     env["PYTHONPATH"] = os.path.join(REPO, "src")
     env.pop("MYGRAD_VERIF", None)
@@ -149,7 +160,8 @@ def main(prop, check_module, cases, tier, seed, describe, symbolic=True, deadlin
             harness_errors.append("preflight failed: %s: %s" % (type(e).__name__, e))
     timed_out = False
     if not harness_errors:
-        with ctx.Pool(nproc, initializer=_init_worker, initargs=(check_module, symbolic), maxtasksperchild=200) as pool:
+        budget = ctx.Value("i", REPLAY_CAP)
+        with ctx.Pool(nproc, initializer=_init_worker, initargs=(check_module, symbolic, budget), maxtasksperchild=200) as pool:
             it = pool.imap_unordered(_run_one, [(i, cases[i], tier) for i in order], chunksize=1)
             done = 0
             while done < len(cases):
